@@ -47,7 +47,7 @@ def main(tier, seed):
     cov = aggregate(results)
     cov["rule"] = ("register layouts from vf/gen/muxlayouts.py (widths 0..2*dw+1 (thorough 4*dw), r/w/rw, implicit/explicit/"
                    "unaligned/padded placement, map alignment, shadow_overlaps None/0/1/2) x full BFS, free driver")
-    return finish(PID, tier, seed, "model_checking", cov, ASSUMPTIONS, t0, results, min_explored=int(0.9 * len(results)))
+    return finish(PID, tier, seed, "model_checking", cov, ASSUMPTIONS, t0, results, min_explored=int(0.9 * sum(1 for r in results if r["cfg"].get("late") is None and not r["cfg"].get("swap"))))
 
 
 ASSUMPTIONS = [
